@@ -430,6 +430,26 @@ def getLogPosterior [ScalarFns α] (lg : Legacy) (P : Problem α) (sel : Option 
       | [l] => .ok (.single l, shEnd)
       | _ => .error .indexError
 
+/-- the repair proposed for the finding `C14-stale-regimen` (the regimen of an individual is set on a
+    copy of the controller's mechanistic model): same posterior, but the controller's own model keeps the
+    protocol it had (`shared`) — also when the call raises -/
+def getLogPosteriorPure [ScalarFns α] (lg : Legacy) (P : Problem α) (sel : Option RawId)
+    (shared : Option (List (Event α))) : Except Err (Posterior α × Option (List (Event α))) :=
+  match getLogPosterior lg P sel shared with
+  | .error x => .error x
+  | .ok (post, _) => .ok (post, shared)
+
+/-- a history of `get_log_posterior` calls on one controller (the data may be replaced between calls):
+    `step` is one call, the protocol on the controller's model is threaded through -/
+def runSeq (step : Problem α → Option RawId → Option (List (Event α)) →
+      Except Err (Posterior α × Option (List (Event α)))) :
+    List (Problem α × Option RawId) → Option (List (Event α)) → List (Except Err (Posterior α))
+  | [], _ => []
+  | (P, sel) :: rest, sh =>
+    match step P sel sh with
+    | .ok (post, sh') => .ok post :: runSeq step rest sh'
+    | .error x => .error x :: runSeq step rest sh
+
 /-! ## the specification: what the dataset describes -/
 
 /-- row `r` contributes the measurement `(t, y)` to individual `i` and observable `b` -/
